@@ -3889,3 +3889,83 @@ pub fn verif_normalize_in_place_if_needed(
 ) -> Result<()> {
     normalize_in_place_if_needed(distance, embedding)
 }
+
+/// Verification hook (H6): contents of the metadata inverted index with INTERNAL ids mapped to
+/// external document ids (postings of tombstoned slots dropped, empty postings omitted),
+/// everything sorted. Compiled only under `--cfg kyrodb_verif`.
+#[cfg(kyrodb_verif)]
+#[derive(Debug, Clone, PartialEq, Eq, Default)]
+pub struct VerifMetadataIndexDump {
+    pub alive: Vec<u64>,
+    pub by_key_value: Vec<(String, String, Vec<u64>)>,
+    pub by_key_lex: Vec<(String, String, Vec<u64>)>,
+    /// (key, OrderedF64 key, ids)
+    pub by_key_numeric: Vec<(String, u64, Vec<u64>)>,
+    pub numeric_docs_by_key: Vec<(String, Vec<u64>)>,
+}
+
+#[cfg(kyrodb_verif)]
+pub fn verif_ordered_f64_key(value: f64) -> u64 {
+    OrderedF64::from_f64(value).0
+}
+
+#[cfg(kyrodb_verif)]
+impl HnswBackend {
+    pub fn verif_metadata_index_dump(&self) -> VerifMetadataIndexDump {
+        let store = self.doc_store.read();
+        let index = self.metadata_index.read();
+        let ext = |bitmap: &RoaringTreemap| -> Vec<u64> {
+            let mut ids: Vec<u64> = bitmap
+                .iter()
+                .filter_map(|internal| {
+                    store
+                        .internal_to_external
+                        .get(internal as usize)
+                        .copied()
+                        .flatten()
+                })
+                .collect();
+            ids.sort_unstable();
+            ids
+        };
+        let mut dump = VerifMetadataIndexDump {
+            alive: ext(&index.alive),
+            ..Default::default()
+        };
+        for (k, values) in &index.by_key_value {
+            for (v, bitmap) in values {
+                let ids = ext(bitmap);
+                if !ids.is_empty() {
+                    dump.by_key_value.push((k.clone(), v.clone(), ids));
+                }
+            }
+        }
+        for (k, values) in &index.by_key_lex {
+            for (v, bitmap) in values {
+                let ids = ext(bitmap);
+                if !ids.is_empty() {
+                    dump.by_key_lex.push((k.clone(), v.clone(), ids));
+                }
+            }
+        }
+        for (k, values) in &index.by_key_numeric {
+            for (num, bitmap) in values {
+                let ids = ext(bitmap);
+                if !ids.is_empty() {
+                    dump.by_key_numeric.push((k.clone(), num.0, ids));
+                }
+            }
+        }
+        for (k, bitmap) in &index.numeric_docs_by_key {
+            let ids = ext(bitmap);
+            if !ids.is_empty() {
+                dump.numeric_docs_by_key.push((k.clone(), ids));
+            }
+        }
+        dump.by_key_value.sort();
+        dump.by_key_lex.sort();
+        dump.by_key_numeric.sort();
+        dump.numeric_docs_by_key.sort();
+        dump
+    }
+}
